@@ -942,10 +942,17 @@ impl VirtualFileSystem for Memfs {
     /// assert_vfs_read_all!(vfs, &file, "foobar 1foobar 2");
     /// ```
     fn append_all<T: AsRef<Path>, U: AsRef<[u8]>>(&self, path: T, data: U) -> RvResult<()> {
-        let mut f = self.append(path)?;
-        f.write_all(data.as_ref())?;
-        f.flush()?;
-        Ok(())
+        // Create if needed and append under a single guard so concurrent appends can't be lost
+        let mut guard = self.write_guard();
+        let path = self._abs(&guard, path)?;
+        self._add(&mut guard, MemfsEntry::opts(&path).file().build())?;
+        match guard.get_file_mut(&path) {
+            Some(file) => {
+                file.data.extend_from_slice(data.as_ref());
+                Ok(())
+            },
+            None => Err(PathError::does_not_exist(path).into()),
+        }
     }
 
     /// Append the given line to to the target file including a newline
